@@ -3,6 +3,7 @@
 -/
 import N2V.Lemmas.Parse
 import N2V.Lemmas.EvalSpec
+import N2V.Lemmas.StmtSpec
 import N2V.Model.Load
 namespace N2V.C10
 open N2V N2V.Scanner N2V.Eval N2V.Parse N2V.Load
@@ -96,5 +97,68 @@ example : segsBytes [([45, 111, 32], .simple [111, 117, 116]), ([32], .braced [1
     = [45, 111, 32, 36, 111, 117, 116, 32, 36, 123, 105, 110, 125, 36, 32, 120, 10] := by decide
 example : textParts [([45, 111, 32], .simple [111, 117, 116]), ([32], .braced [105, 110]), ([], .ch 32)] [120]
     = [.lit [45, 111, 32], .var [111, 117, 116], .lit [32], .var [105, 110], .lit [32], .lit [120]] := by decide
+
+/-- **Every path in its declared role and order** (byte level).  A `build` statement written as
+    explicit outputs, optional `| implicit outputs`, `:`, the rule name, explicit inputs, optional
+    `| implicit`, `|| order-only`, `|@ validation` inputs and indented bindings — with any spacing
+    (spaces and `$`-newline continuations) between the tokens — is read by `Parser::read` into exactly
+    those lists, in that order, with the section counts equal to the section lengths, the bindings in
+    written order (a repeated name overwrites), and the scanner left at the next statement. -/
+theorem build_statement_read_as_written (buf : Array UInt8) (gs : List PGap) (hgs : gs ≠ []) (b : BuildText)
+    (after : Bytes) (hwf : BuildWF b after) (hge : GapEnd (b.bytes after)) (fuel : Nat) (s : Scanner)
+    (g : Depfile.G buf s) (hr : Rest buf s.ofs (kwBuild ++ (pgapBytes gs ++ b.bytes after))) :
+    ∃ s' ln, readItem (fuel + 1) s = .ok (.stmt (.build
+        { rule := b.rule, line := ln, outs := b.outsV, explicitOuts := (sectionValues b.eouts).length,
+          ins := b.insV, explicitIns := (sectionValues b.eins).length, implicitIns := (optVals b.iins).length,
+          orderOnlyIns := (optVals b.oins).length, validationIns := (optVals b.vins).length,
+          vars := b.varsV })) s' ∧ Depfile.G buf s' ∧ Rest buf s'.ofs after :=
+  readItem_build buf gs hgs b after hwf hge fuel s g hr
+
+/-- The other statements are read as written too: top-level bindings, `rule` blocks, `default`,
+    `include` / `subninja`; blank lines and comments before a statement are skipped. -/
+theorem binding_read_as_written (buf : Array UInt8) (name : Bytes) (hne : name ≠ [])
+    (hid : ∀ c ∈ name, isIdentChar c true = true)
+    (hkw : name ∉ [kwRule, kwBuild, kwDefault, kwInclude, kwSubninja, kwPool])
+    (v : ValueText) (r : Bytes) (hwf : ValueWF v r) (fuel : Nat) (s : Scanner) (g : Depfile.G buf s)
+    (hr : Rest buf s.ofs (name ++ (valueBytes v ++ r))) :
+    ∃ s', readItem (fuel + 1) s = .ok (.binding name (valueOf v)) s' ∧ Depfile.G buf s' ∧ Rest buf s'.ofs r :=
+  readItem_binding buf name hne hid hkw v r hwf fuel s g hr
+
+theorem rule_read_as_written (buf : Array UInt8) (gs : List PGap) (hgs : gs ≠ []) (name : Bytes) (hne : name ≠ [])
+    (hid : ∀ c ∈ name, isIdentChar c true = true) (bs : List BindingText) (after : Bytes) (c0 : UInt8) (r0 : Bytes)
+    (hafter : after = c0 :: r0) (hc0 : c0 ≠ SP) (hwf : BindingsWF isRuleVar bs after)
+    (fuel : Nat) (s : Scanner) (g : Depfile.G buf s)
+    (hr : Rest buf s.ofs (kwRule ++ (pgapBytes gs ++ (name ++ NL :: (bindingsBytes bs ++ after))))) :
+    ∃ s', readItem (fuel + 1) s =
+        .ok (.stmt (.rule name (bs.foldl (fun m b => Eval.insert m b.name (valueOf b.rhs)) []))) s' ∧
+      Depfile.G buf s' ∧ Rest buf s'.ofs after :=
+  readItem_rule buf gs hgs name hne hid bs after c0 r0 hafter hc0 hwf fuel s g hr
+
+theorem default_read_as_written (buf : Array UInt8) (gs : List PGap) (hgs : gs ≠ []) (ps : List (PathText × List PGap))
+    (hps : ps ≠ []) (after : Bytes) (hwf : PathsWF ps (NL :: after)) (hge : GapEnd (pathsBytes ps ++ NL :: after))
+    (fuel : Nat) (s : Scanner) (g : Depfile.G buf s)
+    (hr : Rest buf s.ofs (kwDefault ++ (pgapBytes gs ++ (pathsBytes ps ++ NL :: after)))) :
+    ∃ s', readItem (fuel + 1) s = .ok (.stmt (.default (ps.map (fun pg => pathValue pg.1)))) s' ∧
+      Depfile.G buf s' ∧ Rest buf s'.ofs after :=
+  readItem_default buf gs hgs ps hps after hwf hge fuel s g hr
+
+theorem include_read_as_written (buf : Array UInt8) (sub : Bool) (gs : List PGap) (hgs : gs ≠ []) (t : PathText)
+    (r : Bytes) (hwf : SegsWF false t.1 (t.2 ++ NL :: r)) (hlast : ∀ c ∈ t.2, plain false c) (hne : pathValue t ≠ [])
+    (hge : GapEnd (pathBytes t ++ NL :: r)) (fuel : Nat) (s : Scanner) (g : Depfile.G buf s)
+    (hr : Rest buf s.ofs ((if sub then kwSubninja else kwInclude) ++ (pgapBytes gs ++ (pathBytes t ++ NL :: r)))) :
+    ∃ s', readItem (fuel + 1) s =
+        .ok (.stmt (if sub then .subninja (pathValue t) else .include (pathValue t))) s' ∧
+      Depfile.G buf s' ∧ Rest buf s'.ofs (NL :: r) :=
+  readItem_include buf sub gs hgs t r hwf hlast hne hge fuel s g hr
+
+theorem blank_and_comment_lines_skipped (buf : Array UInt8) (body x : Bytes)
+    (hb : ∀ c ∈ body, c ≠ NUL ∧ c ≠ NL ∧ c ≠ CR) (fuel : Nat) (s : Scanner) (g : Depfile.G buf s) :
+    (Rest buf s.ofs (NL :: x) → ∃ s1, Depfile.G buf s1 ∧ Rest buf s1.ofs x ∧ readItem (fuel + 1) s = readItem fuel s1) ∧
+    (Rest buf s.ofs (HASH :: (body ++ NL :: x)) →
+      ∃ s1, Depfile.G buf s1 ∧ Rest buf s1.ofs x ∧ readItem (fuel + 1) s = readItem fuel s1) :=
+  ⟨fun hr => readItem_blank buf x fuel s g hr, fun hr => readItem_comment buf body x hb fuel s g hr⟩
+
+/-- Non-vacuity: ` o: cc a | b || c` / `  x = 1` meets the well-formedness hypothesis. -/
+example : BuildWF exBuild [NL] := exBuild_wf
 
 end N2V.C10
